@@ -100,6 +100,18 @@ def gen_cfgs(ctx, n):
         mid = ['f0'] + ['f1'] + ['f0'] * (1 + i % 2) + ['f1'] * (accum - 1) + ['s']
         cfg.ops = it + mid + it + ['f1', 'f0'] + ['f1'] * (accum - 1) + ['s'] + it
         cfgs.append(cfg)
+    # directed: intervals changed by the real scheduler with factors whose products are not integral (3 x 3/2 -> 4, 5 x 1/2 -> 2):
+    # the truncated interval is the one the following steps honour
+    for fus, ius, ff, fi in ((1, 3, None, Fraction(3, 2)), (3, 5, Fraction(3, 2), Fraction(1, 2))):
+        cfg = kfacsim.Config(rng, world=rng.choice([1, 2]))
+        cfg.hyper['factor_update_steps'], cfg.hyper['inv_update_steps'] = fus, ius
+        ch, fa = {'inv_update_steps': int(ius * fi)}, {'inv_update_steps': fi}
+        if ff is not None:
+            ch['factor_update_steps'], fa['factor_update_steps'] = int(fus * ff), ff
+        cfg.hyper_changes, cfg.hyper_factors = [ch], [fa]
+        it = ['f1'] * cfg.accum + ['s']
+        cfg.ops = it * 2 + ['h:0'] + it * 9
+        cfgs.append(cfg)
     # directed: a full state round trip on the live preconditioner while batch statistics are pending (between the
     # micro-batches of a window; between backward and step() when the factors are updated in step()): nothing is dropped
     for hook, accum in ((True, 2), (False, 1), (False, 2), (True, 3)):
